@@ -110,7 +110,9 @@ theorem upgrade_after_chain (a : Alloc) (ch : Chain) (p q : PtrVal) (h : apply a
 
 /-- `ptr_eq` answers "same allocation, same address" and nothing else: it is insensitive to the
     metadata carried by wide pointers (slice length, vtable) and to every tag (strength, kind,
-    static type) of either argument. -/
+    static type) of either argument.  (Immediate from the definition of `samePtr`, the model's
+    reading of `ptr::addr_eq`; that `Gc::ptr_eq` / `GcWeak::ptr_eq` behave so on wide pointers with
+    different metadata is observed by harness_conv's `alias` / `prefix` cases.) -/
 theorem ptr_eq_ignores_metadata (p q : PtrVal) :
     (samePtr p q = true ↔ p.obj = q.obj ∧ p.off = q.off) ∧
     (∀ (w1 w2 t1 t2 : Bool) (pm1 pm2 : PMeta) (ty1 ty2 : Ty) (c1 c2 : Meta),
@@ -197,7 +199,9 @@ theorem fat_thin_roundtrip (a : Alloc) (p : PtrVal) (hw : WF a p) (hs : p.weak =
 /-! ### Collector identity -/
 
 /-- What the collector sees of a converted pointer is the original target, and — when the chain
-    ends with the strength it began with — exactly what it sees of the original pointer. -/
+    ends with the strength it began with — exactly what it sees of the original pointer.
+    (`toPtr` keeps only target and strength by definition, mirroring `Collect for Gc` =
+    `trace_gc(Gc::erase(*self))`; the substance is `same_object`.) -/
 theorem collector_view (a : Alloc) (ch : Chain) (p q : PtrVal) (h : apply a ch p = some q) :
     q.toPtr.target = p.toPtr.target ∧ (q.weak = p.weak → q.toPtr = p.toPtr) := by
   have ho := (apply_same h).1
@@ -210,7 +214,10 @@ theorem collector_view (a : Alloc) (ch : Chain) (p q : PtrVal) (h : apply a ch p
 /-- No client program can tell the collector which of the two it stored: any operation sequence
     built around the converted pointer — stored in the root, in an object, allocated into a new
     object, in any phase, followed by any collection schedule — is the sequence built around the
-    original, so every observable (states, return values, the destruction log) coincides. -/
+    original, so every observable (states, return values, the destruction log) coincides.
+    (A rewriting with `collector_view`: the collector model has no state that depends on a
+    pointer's tags.  That the real collector does not either is observed by harness_conv:
+    survival and destruction under every placement of the converted pointer.) -/
 theorem indistinguishable (a : Alloc) (ch : Chain) (p q : PtrVal) (h : apply a ch p = some q)
     (hw : q.weak = p.weak) (A : Arena) (prog : Ptr → List Op) :
     A.run (prog q.toPtr) = A.run (prog p.toPtr) := by
@@ -277,16 +284,105 @@ theorem destructed_once (n : Nat) (ops : List Op) (a : Alloc) (ch : Chain) (p q 
   exact ⟨(apply_same h).1, List.nodup_iff_count.mp hl.nodup _, List.nodup_iff_count.mp hl.nodup _,
     hl.freedDropped _⟩
 
+/-! ### Dereference and destruction -/
+
+/-- Every strong pointer obtained by any chain from the allocating call's result dereferences to
+    the original value: at the allocated type it sees the constructed type and *all* its value
+    tokens (for `[E]` / `str`: exactly the original elements — the length it reads, carried or
+    rebuilt from the header, is the original one), after `unsize!` the `[E]` view of all elements
+    or the `dyn` view backed by the constructed type's value, after `erase` a `&()`.
+    (Hypothesis `hlen`: the value has as many tokens as its type says.) -/
+theorem deref_original_value (a : Alloc) (tyTag : Nat) (tokens : List Nat)
+    (hlen : tokens.length = a.target.elemCount) (ch : Chain) (q : PtrVal)
+    (h : apply a ch (initPtr a) = some q) (hs : q.weak = false) :
+    deref (store a tyTag tokens) q = some (fullView (store a tyTag tokens) q.ty) := by
+  obtain ⟨ho, hf, hw⟩ := from_alloc a ch q h
+  have hm := derefMeta_wf hw
+  simp only [deref, store, hs, ho, hf, bne_self_eq_false, Bool.or_self, Bool.false_eq_true, if_false, hm]
+  cases hty : q.ty
+  · -- orig
+    cases ht : a.target <;>
+      simp_all [fatMeta, Target.hdrLen, fullView, Target.elemCount] <;>
+      (subst hlen; exact List.take_length)
+  · simp [fullView]
+  · -- uns: the allocation is sized
+    have hsz := (hw.uns hty).1
+    cases ht : a.target <;>
+      simp_all [fatMeta, fullView, Target.isSized, Target.elemCount] <;>
+      (subst hlen; exact List.take_length)
+
+/-- A weak result dereferences (after `upgrade`) to the original value as long as `upgrade`
+    succeeds. -/
+theorem deref_after_upgrade (a : Alloc) (tyTag : Nat) (tokens : List Nat)
+    (hlen : tokens.length = a.target.elemCount) (ch : Chain) (q : PtrVal)
+    (h : apply a ch (initPtr a) = some q) (hw : q.weak = true) (hu : a.upgradable = true) :
+    ∃ r, step a .upgrade q = some r ∧
+      deref (store a tyTag tokens) r = some (fullView (store a tyTag tokens) q.ty) := by
+  have happ : applicable a.target .upgrade q = true := by simp [applicable, hw]
+  have hstep : step a .upgrade q = some { q with weak := false } := by
+    simp [step_of_applicable happ, conv, hu]
+  refine ⟨_, hstep, ?_⟩
+  have h' : apply a (ch ++ [.upgrade]) (initPtr a) = some { q with weak := false } := by
+    have : ∀ (c : Chain) (p : PtrVal), apply a c p = some q → apply a (c ++ [.upgrade]) p = some { q with weak := false } := by
+      intro c
+      induction c with
+      | nil => intro p hp; simp [apply] at hp; subst hp; simp [apply, hstep]
+      | cons s c ih =>
+        intro p hp
+        simp only [apply, List.cons_append] at hp ⊢
+        cases hs : step a s p with
+        | none => rw [hs] at hp; cases hp
+        | some r => rw [hs] at hp; simp only; exact ih r hp
+    exact this ch _ h
+  exact deref_original_value a tyTag tokens hlen _ _ h' rfl
+
+/-- The destructor runs recorded for a block in a history: one per `dropped` event of its id,
+    each running the drop glue found in the block's header on the block's value. -/
+def glueRuns (s : Stored) (log : List Event) : List (Nat × List Nat) :=
+  (log.filter (· == .dropped s.alloc.id)).map fun _ => (s.glue, s.tokens)
+
+/-- Destructed once, as its original type: whatever chain produced the pointer the value was last
+    held by — whatever that pointer's static type, kind and metadata — over any history the block
+    it refers to has at most one destructor run, and that run is the drop glue of the type the
+    value was *constructed* as, applied to the whole original value; destructing twice runs
+    nothing the second time.  (That no conversion touches the header's glue is by construction of
+    the model — `apply` has no access to `Stored` — and is checked on the implementation by
+    harness_conv: the destructor log records the original type's name, every element once.) -/
+theorem destructed_as_original_type (n : Nat) (ops : List Op) (a : Alloc) (tyTag : Nat)
+    (tokens : List Nat) (ch : Chain) (q : PtrVal) (h : apply a ch (initPtr a) = some q) :
+    (glueRuns (store a tyTag tokens) ((Arena.new n).run ops).ctx.log).length ≤ 1 ∧
+    (∀ r, r ∈ glueRuns (store a tyTag tokens) ((Arena.new n).run ops).ctx.log → r = (tyTag, tokens)) ∧
+    (glueRuns (store a tyTag tokens) ((Arena.new n).run ops).ctx.log).length =
+      ((Arena.new n).run ops).ctx.log.count (.dropped q.obj) ∧
+    (a.live = true → (destruct (store a tyTag tokens)).2 = some (tyTag, tokens) ∧
+      (destruct (destruct (store a tyTag tokens)).1).2 = none) := by
+  have ho := (from_alloc a ch q h).1
+  have hc : (glueRuns (store a tyTag tokens) ((Arena.new n).run ops).ctx.log).length =
+      ((Arena.new n).run ops).ctx.log.count (.dropped q.obj) := by
+    simp [glueRuns, store, ho, List.count_eq_length_filter]
+  refine ⟨?_, ?_, hc, ?_⟩
+  · rw [hc]; exact List.nodup_iff_count.mp (linv_run n ops).nodup _
+  · intro r hr
+    simp only [glueRuns, List.mem_map] at hr
+    obtain ⟨_, _, rfl⟩ := hr
+    rfl
+  · intro hl
+    simp [destruct, store, hl]
+
 /-! ### ZstCache -/
 
 /-- The shared pointer is returned exactly for zero-sized types whose alignment does not exceed
-    the cache's. -/
+    the cache's.  (Immediate from the definition of `zstShared`, which transcribes the test of
+    `alloc_zst`; that the implementation follows this rule is what the ZstCache grid of
+    harness_conv observes — the assurance comes from there, not from this unfolding.) -/
 theorem zst_shared_iff (size align maxAlign : Nat) :
     zstShared size align maxAlign = true ↔ size = 0 ∧ align ≤ maxAlign := by
   simp [zstShared]
 
 /-- `alloc` returns the cache's block iff the type qualifies; otherwise a fresh block that holds
-    the value.  (`next` is the id of the next allocation; the cache's block is older.) -/
+    the value.  (`next` is the id of the next allocation; the cache's block is older.)
+    (Immediate from the definition of `Cache.alloc`; assurance from harness_conv's `zst` / `zkeep`
+    grids: `ptr_eq`, `is_cached`, `total_gc_count`.) -/
 theorem zst_alloc (c : Cache) (next size align : Nat) (hc : c.obj < next) :
     ((c.alloc next size align).obj = c.obj ↔ size = 0 ∧ align ≤ c.maxAlign) ∧
     ((c.alloc next size align).fresh = true ↔ ¬ (size = 0 ∧ align ≤ c.maxAlign)) ∧
@@ -295,7 +391,8 @@ theorem zst_alloc (c : Cache) (next size align : Nat) (hc : c.obj < next) :
   rw [← zst_shared_iff]
   cases zstShared size align c.maxAlign <;> simp <;> omega
 
-/-- All qualifying requests — of whatever types — alias the one block of the cache. -/
+/-- All qualifying requests — of whatever types — alias the one block of the cache.
+    (Immediate from the definition; assurance from harness_conv's `alias` grid.) -/
 theorem zst_shared_alias (c : Cache) (n1 n2 s1 a1 s2 a2 : Nat)
     (h1 : zstShared s1 a1 c.maxAlign = true) (h2 : zstShared s2 a2 c.maxAlign = true) :
     (c.alloc n1 s1 a1).obj = (c.alloc n2 s2 a2).obj := by
@@ -314,7 +411,9 @@ theorem zst_cache_aliases_ptr_eq (c : Cache) (n1 n2 s1 al1 s2 al2 : Nat) (t1 t2 
   exact decide_eq_true (zst_shared_alias c n1 n2 s1 al1 s2 al2 hs1 hs2)
 
 /-- The value handed to `alloc` is destructed exactly once in either case: at once when the
-    shared pointer is returned (the shared block holds no `T`), with its block otherwise. -/
+    shared pointer is returned (the shared block holds no `T`), with its block otherwise.
+    (Immediate from the definition, which records what `alloc` does with its by-value argument;
+    assurance from harness_conv's `zst` grid: destructor log counts at allocation and at release.) -/
 theorem zst_value_destructed_once (c : Cache) (next size align : Nat) :
     (c.alloc next size align).dropsNow + (c.alloc next size align).dropsLater = 1 ∧
     ((c.alloc next size align).dropsNow = 1 ↔ zstShared size align c.maxAlign = true) := by
@@ -417,6 +516,21 @@ example : (((Arena.new 1).run condemnedDemo).ctx.heap.get 0).map (fun o => (o.li
     some (true, .whiteWeak) := by decide
 example : (((Arena.new 1).run condemnedDemo).ctx.upgrade 0).2 = false := by decide
 example : scenarioState .sweep .ww = (true, true) := rfl
+
+-- deref: after any chain the slice pointer sees all three original elements of the constructed type
+example : deref (store sliceAlloc 42 [10, 11, 12])
+    ((apply sliceAlloc sliceChain (initPtr sliceAlloc)).getD default) = some (.whole 42 [10, 11, 12]) := by decide
+-- … whereas a pointer with another length (which no chain produces) would not
+example : deref (store sliceAlloc 42 [10, 11, 12]) ⟨0, 0, false, false, .slice, .orig, .len 2⟩ =
+    some (.whole 42 [10, 11]) := by decide
+example : deref (store ⟨0, .sized, true, false⟩ 7 [99])
+    ((apply ⟨0, .sized, true, false⟩ [.asThin, .unsize, .erase, .cast, .unsize] (initPtr ⟨0, .sized, true, false⟩)).getD default) =
+    some (.dynOf 7 [99]) := by decide
+-- destruction runs the constructed type's glue on the whole value, once
+example : (destruct (store sliceAlloc 42 [10, 11, 12])).2 = some (42, [10, 11, 12]) ∧
+    (destruct (destruct (store sliceAlloc 42 [10, 11, 12])).1).2 = none := by decide
+example : glueRuns (store sliceAlloc 42 [10, 11, 12]) ((Arena.new 1).run weakDemo2).ctx.log = [(42, [10, 11, 12])] := by
+  decide
 
 -- `[(); 2]` and `[(); 3]` from one cache, unsized to `[()]`: lengths 2 and 3, still `ptr_eq`
 example :
